@@ -3,6 +3,10 @@ import PhyModel.Proofs.StoreWF_Labels
 import PhyModel.Proofs.C07Example
 import PhyModel.Proofs.StoreDataMove
 import PhyModel.Proofs.GraphExample
+import PhyModel.Proofs.GraphOfCreate2
+import PhyModel.Proofs.GraphOfStruct
+import PhyModel.Proofs.GraphOfGraft
+import PhyModel.Proofs.GraphOfDict
 /-! # C07 — every tree is a well-formed forest and no edit loses or duplicates data (store model)
 
 Property theorems only; the proofs are in `Proofs/StoreWF_*.lean` (one file per operation on top of
@@ -390,6 +394,92 @@ example : (∀ op ∈ ops, GLegal op) ∧ gRun [gInit] ops =
   decide +kernel
 
 end
+
+/-! ### the structural store model is a correct abstraction of the primitive-level manipulations
+
+`graphOf f` (`Proofs/GraphOf.lean`): live set `0 :: f.idxs`, edge list `Store.edgesOf 0 f` (what `to_dict`
+stores).  For each shape-changing structural operation of `Model/Store.lean`, the graph-level operation
+applied to `graphOf f` with the indices the structural operation chose succeeds and yields the live set and
+the edge multiset of `graphOf` of the structural result. -/
+section Link
+open PhyModel.Graph (graphOf mapIdx reindexMap)
+
+/-- the shape facts that hold by construction in `SF` are theorems about its graph -/
+theorem graph_of_forest {f : SF} (hn : f.idxs.Nodup) (h0 : 0 ∉ f.idxs) : IsForest (graphOf f) :=
+  Graph.isForest_graphOf hn h0
+
+/-- `createRootNode`: `takeRoots` / `cons` -/
+theorem graph_createRootNode {f : SF} {n1 : NodeRec} {cis : List ℕ} (hn : f.idxs.Nodup) (h0 : 0 ∉ f.idxs)
+    (hnew : n1.idx ∉ f.idxs) (hnew0 : n1.idx ≠ 0) (hlen : (f.takeRoots cis).1.rootRecs.length = cis.length) :
+    ∃ g', gCreateRootNode (graphOf f) n1.idx cis = some g' ∧
+      g'.nodes.Perm (graphOf (.cons n1 (f.takeRoots cis).1 (f.takeRoots cis).2)).nodes ∧
+      g'.edges.Perm (graphOf (.cons n1 (f.takeRoots cis).1 (f.takeRoots cis).2)).edges :=
+  Graph.graph_createRootNode hn h0 hnew hnew0 hlen
+
+/-- the same for the whole `Store.createRootNode` (fresh index, children looked up in `_node_indices`,
+`_update_path_to_root` leaves the graph alone) -/
+theorem graph_store_createRootNode {dt : Data} {s : Store} {ch : List Int} {data : List ℕ} {r : Store × Int}
+    (hwf : WF s) (h : s.createRootNode dt ch data = some r) :
+    ∃ cis g', ch.mapM (fun c => (alSet s.nodeIdx (s.numNodes : Int) s.fresh).lookup c) = some cis ∧
+      gCreateRootNode (graphOf s.forest) s.fresh cis = some g' ∧
+      g'.nodes.Perm (graphOf r.1.forest).nodes ∧ g'.edges.Perm (graphOf r.1.forest).edges :=
+  Graph.graph_store_createRootNode hwf h
+
+/-- `removeSub` (and: what is reachable from a clone in the graph is its structural subtree) -/
+theorem graph_removeSub {f : SF} {i : ℕ} (hn : f.idxs.Nodup) (h0 : 0 ∉ f.idxs) (hi : i ∈ f.idxs) :
+    (∀ x, f.findSub i = some x → ∀ v, Reach (graphOf f) i v ↔ v = i ∨ v ∈ x.2.idxs) ∧
+    ∃ g', gRemoveSubtree (graphOf f) i = some g' ∧
+      g'.nodes.Perm (graphOf (f.removeSub i)).nodes ∧ g'.edges.Perm (graphOf (f.removeSub i)).edges :=
+  ⟨fun _ hx v => Graph.reach_graphOf_iff hn h0 hx v, Graph.graph_removeSub hn h0 hi⟩
+
+/-- `getSubtree`: `findSub`, for any numbering of `subgraph` / `compose` that is injective on the subtree and
+avoids 0 — in particular (second part) the one `reindex … 1` chooses -/
+theorem graph_getSubtree {f : SF} {i : ℕ} {x : NodeRec × SF} (hn : f.idxs.Nodup) (h0 : 0 ∉ f.idxs)
+    (hx : f.findSub i = some x) :
+    (∀ ρ₁ ρ₂ : ℕ → ℕ, (∀ a ∈ i :: x.2.idxs, ∀ b ∈ i :: x.2.idxs, ρ₂ (ρ₁ a) = ρ₂ (ρ₁ b) → a = b) →
+      (∀ a ∈ i :: x.2.idxs, ρ₂ (ρ₁ a) ≠ 0) →
+      ∃ g', gGetSubtree (graphOf f) i ρ₁ ρ₂ = some g' ∧
+        g'.nodes.Perm (graphOf (mapIdx (fun a => ρ₂ (ρ₁ a)) (.cons x.1 x.2 .nil))).nodes ∧
+        g'.edges.Perm (graphOf (mapIdx (fun a => ρ₂ (ρ₁ a)) (.cons x.1 x.2 .nil))).edges) ∧
+    ∃ g', gGetSubtree (graphOf f) i id (reindexMap (.cons x.1 x.2 .nil) 1) = some g' ∧
+      g'.nodes.Perm (graphOf (Store.reindex (.cons x.1 x.2 .nil) 1).1).nodes ∧
+      g'.edges.Perm (graphOf (Store.reindex (.cons x.1 x.2 .nil) 1).1).edges :=
+  ⟨fun _ _ hinj hne0 => Graph.graph_getSubtree hn h0 hx hinj hne0, Graph.graph_getSubtree_struct hn h0 hx⟩
+
+/-- `addSubtree`: `append` (parent = virtual root) / `graftAt` of the re-indexed subtree, with the renaming
+`reindex … c` applies (`reindexMap`; the copy of the grafted tree's root gets one more unused index) -/
+theorem graph_addSubtree {f sf : SF} {p c : ℕ} (hn : f.idxs.Nodup) (h0 : 0 ∉ f.idxs) (hsn : sf.idxs.Nodup)
+    (hs0 : 0 ∉ sf.idxs) (hp : p = 0 ∨ p ∈ f.idxs) (hc : ∀ a ∈ f.idxs, a < c) (hc0 : 0 < c) :
+    ∃ g', gAddSubtree (graphOf f) (graphOf sf) p (reindexMap sf c) = some g' ∧
+      g'.nodes.Perm (graphOf (if p = 0 then (Store.reindex sf c).1.append f
+        else SF.graftAt p (Store.reindex sf c).1 f)).nodes ∧
+      g'.edges.Perm (graphOf (if p = 0 then (Store.reindex sf c).1.append f
+        else SF.graftAt p (Store.reindex sf c).1 f)).edges :=
+  Graph.graph_addSubtree_struct hn h0 hsn hs0 hp hc hc0
+
+/-- `fromDict`: `buildSF` on the dictionary form of a well-formed store -/
+theorem graph_fromDict {dt : Data} {s s' : Store} (hs : WF s ∧ Full s) (h : Store.fromDict dt s.toDict = some s') :
+    (gFromDict s.toDict.edges (0 :: s.toDict.nodeIdxRev.map (·.1))).nodes.Perm (graphOf s'.forest).nodes ∧
+      (gFromDict s.toDict.edges (0 :: s.toDict.nodeIdxRev.map (·.1))).edges.Perm (graphOf s'.forest).edges :=
+  Graph.graph_fromDict hs h
+
+/-! non-vacuity: on the store `t2` of section 6 (clone 1 above clone 0); further concrete instances with the
+graphs written out are at the end of `Proofs/GraphOfCreate(2)`, `GraphOfRemove`, `GraphOfGetSub`, `GraphOfGraft` -/
+section
+open PhyModel.Store.C07Ex
+
+example : t2.forest.idxs.Nodup ∧ 0 ∉ t2.forest.idxs ∧ graphOf t2.forest = { nodes := [0, 2, 1], edges := [(0, 2), (2, 1)] } ∧
+    (t2.forest.findSub 2).isSome = true ∧ 1 ∈ t2.forest.idxs ∧
+    gRemoveSubtree (graphOf t2.forest) 1 = some { nodes := [0, 2], edges := [(0, 2)] } ∧
+    graphOf (t2.forest.removeSub 1) = { nodes := [0, 2], edges := [(0, 2)] } := by decide +kernel
+example : WF t2 ∧ Full t2 ∧ (t2.createRootNode dt [1] [3]).isSome = true ∧ (Store.fromDict dt t2.toDict).isSome = true ∧
+    (∀ a ∈ t2.forest.idxs, a < t2.fresh) ∧ 0 < t2.fresh ∧ sub.forest.idxs.Nodup ∧ 0 ∉ sub.forest.idxs ∧
+    sub.forest.idxs = [1] := by
+  refine ⟨(wfB_iff _).1 (by decide +kernel), by unfold Full; decide +kernel, ?_⟩
+  decide +kernel
+
+end
+end Link
 end GraphShape
 
 end PhyModel.Props.C07
